@@ -1,7 +1,7 @@
 (* C16 - correspondence / property evaluation on histories observed on the
    implementation.  Executable only. *)
 From Coq Require Import List ZArith Bool.
-From GZ Require Export Lib.CheckLib C16.Model.
+From GZ Require Export Lib.CheckLib C16.Model C16.ModelW.
 Import ListNotations.
 Open Scope Z_scope.
 
@@ -83,6 +83,57 @@ Definition expand1 (o : mop) : list smop :=
 
 Definition expand (ops : list mop) : list smop := flat_map expand1 ops.
 
+
+(* ---------- cache + wheel: reference = stamp LRU + "key -> ticks remaining" ---------- *)
+Fixpoint due_drop (k : Z) (l : list (Z * Z)) : list (Z * Z) :=
+  match l with
+  | [] => []
+  | (k', r) :: l' => if k' =? k then due_drop k l' else (k', r) :: due_drop k l'
+  end.
+
+Definition due_put (k r : Z) (l : list (Z * Z)) : list (Z * Z) := (k, r) :: due_drop k l.
+
+Record refw := mkRefW { rws : scache; rwdue : list (Z * Z) }.
+
+Definition refw_put (interval : Z) (s : refw) (k v d : Z) : refw :=
+  let (s1, ev) := s_put (rws s) k v in
+  let due1 := fold_left (fun l e => due_drop e l) ev (rwdue s) in
+  mkRefW s1 (due_put k (Z.max d interval / interval) due1).
+
+Definition refw_step (interval : Z) (s : refw) (o : xop) : refw * obs :=
+  match o with
+  | XSet k v d => (refw_put interval s k v d, OUnit)
+  | XGet k => let (s1, r) := s_get (rws s) k in (mkRefW s1 (rwdue s), OOpt r)
+  | XDel k => (mkRefW (s_del (rws s) k) (due_drop k (rwdue s)), OUnit)
+  | XTake k f d =>
+    match s_get (rws s) k with
+    | (s1, Some v) => (mkRefW s1 (rwdue s), OTake (Some v) false)
+    | (s1, None) =>
+      match f with
+      | Some v => (refw_put interval (mkRefW s1 (rwdue s)) k v d, OTake (Some v) true)
+      | None => (mkRefW s1 (rwdue s), OTake None true)
+      end
+    end
+  | XTick =>
+    let fired := map fst (filter (fun kr => snd kr =? 1) (rwdue s)) in
+    let keep := map (fun kr => (fst kr, snd kr - 1)) (filter (fun kr => negb (snd kr =? 1)) (rwdue s)) in
+    (mkRefW (fold_left s_del fired (rws s)) keep, OUnit)
+  end.
+
+Fixpoint refw_run (interval : Z) (s : refw) (ops : list xop) : list obs :=
+  match ops with
+  | [] => []
+  | o :: ops' => let (s', r) := refw_step interval s o in r :: refw_run interval s' ops'
+  end.
+
+(* the property's quantifier: expiries of at least one wheel interval *)
+Definition xop_in_scope (interval : Z) (o : xop) : bool :=
+  match o with
+  | XSet _ _ d => interval <=? d
+  | XTake _ _ d => interval <=? d
+  | _ => true
+  end.
+
 (* ---------- cases ---------- *)
 Inductive case :=
 | KWindow (size : Z) (iv t0 : Z) (ig : bool) (ops : list wop) (seen : list (list (list Z)))
@@ -90,7 +141,8 @@ Inductive case :=
 | KQueue (size : Z) (ops : list qop) (seen : list obs)
 | KRing (n : Z) (ops : list rop) (seen : list obs)
 | KSet (ops : list sop) (seen : list obs)
-| KCache (limit : Z) (ops : list cop) (seen : list obs).
+| KCache (limit : Z) (ops : list cop) (seen : list obs)
+| KCacheW (limit slots interval : Z) (mv : bool) (ops : list xop) (seen : list obs).
 
 Definition agrees (c : case) : bool :=
   match c with
@@ -101,6 +153,8 @@ Definition agrees (c : case) : bool :=
   | KRing n ops seen => same false (r_run (r_new (Z.to_nat n)) ops) seen
   | KSet ops seen => same true (set_run [] ops) seen
   | KCache limit ops seen => same false (c_run (c_new limit) ops) seen
+  | KCacheW limit slots interval mv ops seen =>
+    same false (cw_run (cw_new limit slots interval mv) ops) seen
   end.
 
 (* the number of distinct keys a trailing run of Get hits found = entries held *)
@@ -146,6 +200,10 @@ Definition prop_ok (c : case) : bool :=
   | KCache limit ops seen =>
     same false (s_run (s_new limit) ops) seen &&
     (if 0 <? limit then probe_ok limit ops seen else true)
+  | KCacheW limit slots interval mv ops seen =>
+    if (1 <=? slots) && (1 <=? interval) && forallb (xop_in_scope interval) ops then
+      same false (refw_run interval (mkRefW (s_new limit) []) ops) seen
+    else true
   end.
 
 Inductive mobs := MW (l : list (list (list Z))) | MO (l : list obs).
@@ -158,4 +216,5 @@ Definition model_obs (c : case) : mobs :=
   | KRing n ops _ => MO (visible false (r_run (r_new (Z.to_nat n)) ops))
   | KSet ops _ => MO (visible true (set_run [] ops))
   | KCache limit ops _ => MO (visible false (c_run (c_new limit) ops))
+  | KCacheW limit slots interval mv ops _ => MO (visible false (cw_run (cw_new limit slots interval mv) ops))
   end.
